@@ -116,6 +116,13 @@ func c15Case(c *vlib.Ctx, e *inproc.Env, idx int) {
 	if st.Includes > 0 {
 		c.Count("programs_with_includes", 1)
 	}
+	if st.WsEnabledTrue > 0 {
+		c.Count("programs_with_enabled_true_in_surrounding_white_space", 1)
+	}
+	if st.WsEnabledFalse > 0 {
+		c.Count("programs_with_enabled_false_in_surrounding_white_space", 1)
+	}
+	c.Count("roles_enabled_through_text_with_surrounding_white_space", int64(st.WsEnabledTrue))
 	if ids := outerDependentIterators(p.root); len(ids) > 0 {
 		c.Count("programs_with_inner_range_depending_on_outer_variable", 1)
 		if outerCopiesExpanded(tree, ids) >= 2 {
